@@ -702,8 +702,14 @@ def compare_one(m, d, integ, state1=None):
     tol = tolerance(m, fdq, mmax)
     e_fd = np.abs(got[w] - fdq)
     e_mj = np.abs(got[w] - mjq)
+    # finite differences decide only where they are trustworthy: on entries where MuJoCo's own analytic
+    # derivative (an approximation for the ellipsoid fluid model) is itself further than tol from them, MuJoCo's
+    # analytic value is the reference (the property compares with MuJoCo) and the finite difference is not used
+    fd_trust = np.abs(mjq - fdq) <= tol
     if integ == IMPLICITFAST:
       e_mj[np.ix_(free, free)] = 0.0  # see childless_free_dofs
+      fd_trust[np.ix_(free, free)] = True  # there finite differences are the only reference
+    e_fd = np.where(fd_trust, e_fd, 0.0)
     if e_fd.max(initial=0) > tol or e_mj.max(initial=0) > tol:
       lower_ok = np.tril(e_fd).max(initial=0) <= tol and np.tril(e_mj).max(initial=0) <= tol
       i, j = np.unravel_index(np.argmax(np.maximum(e_fd, e_mj)), e_fd.shape)
